@@ -194,6 +194,42 @@ pub open spec fn trans_locs(f: il::Function, l: Loc, s: LSet) -> LSet {
     |d: Loc| if gens(f, l) { d == l || (s(d) && !kills(f, l, d)) } else { s(d) }
 }
 
+/// THE TEXTBOOK TRANSFER FUNCTION on sets of abstract locations: an instruction that defines at least one scalar
+/// removes the definitions all of whose scalars it overwrites and inserts itself
+pub open spec fn trans_locs_textbook(f: il::Function, l: Loc, s: LSet) -> LSet {
+    |d: Loc| if gens_textbook(f, l) { d == l || (s(d) && !kills_textbook(f, l, d)) } else { s(d) }
+}
+
+/// CODE vs TEXTBOOK, every operation: on REAL definitions (write list non-empty) the code keeps at least what the
+/// textbook keeps - it never loses a definition the textbook transfer function retains.
+pub proof fn lemma_trans_above_textbook(f: il::Function, l: Loc, s: LSet, d: Loc)
+    requires gens_textbook(f, d), trans_locs_textbook(f, l, s)(d),
+    ensures trans_locs(f, l, s)(d),
+{
+    if gens(f, l) && d != l && kills(f, l, d) {
+        lemma_kills_sound(f, l, d);
+        if !gens_textbook(f, l) {
+            assert(written_at(f, l).unwrap() =~= Seq::<il::Scalar>::empty());
+        }
+    }
+}
+
+/// CODE = TEXTBOOK on real definitions when the executed instruction and the definition write at most one scalar
+/// each (Assign, Load, Store, Branch, Nop, one-scalar intrinsics).  For an intrinsic that declares SEVERAL written
+/// scalars only lemma_trans_above_textbook holds: the code keeps `q = 1` across `intrinsic writes {p, q}` (vectors
+/// [q] and [p, q] differ) although the textbook kills it, and keeps `intrinsic writes {p, q}` across another
+/// `intrinsic writes {q, p}` (same set, different order).  Sound (a superset), not exact.
+pub proof fn lemma_trans_is_textbook_single(f: il::Function, l: Loc, s: LSet, d: Loc)
+    requires single_write(f, l), single_write(f, d), gens_textbook(f, d),
+    ensures trans_locs(f, l, s)(d) <==> trans_locs_textbook(f, l, s)(d),
+{
+    lemma_kills_single(f, l, d);
+    if gens(f, l) && !gens_textbook(f, l) {
+        assert(written_at(f, l).unwrap() =~= Seq::<il::Scalar>::empty());
+        assert(written_at(f, d).unwrap().len() > 0);
+    }
+}
+
 pub open spec fn in_view(s: Option<LocationSet>) -> PLSet {
     match s { Some(x) => x@, None => Set::<il::ProgramLocation>::empty() }
 }
